@@ -112,7 +112,7 @@ def corpus_cases(prop: str):
 
 def exhaustive_cases():
     """all initial shapes of one key x all histories of <= 2 commands over that key from a small command
-    alphabet x 3 modes x {commit, exception} (thorough tier)"""
+    alphabet x 3 modes x {commit, Exception, non-Exception BaseException, cancellation} (thorough tier)"""
     cmds = ["set 0 t:9 - a", "set 0 t:9 8 nx", "set 0 t:9 - xx", "incr 0 1 8", "delete 0", "expire 0 16",
             "get 0", "getexpire 0", "exists 0", "getmany 0 2", "adv 2"]
     inits = [["adv 3"], ["set 0 i:1 - a", "adv 3"], ["set 0 i:1 19 a", "adv 3"], ["set 0 i:1 2 a", "adv 3"]]
@@ -120,7 +120,7 @@ def exhaustive_cases():
     for ini in inits:
         for h in hists:
             for mode in txhist.MODES:
-                for end in ("ok", "exc"):
+                for end in txhist.ENDS:
                     yield {"config": "facade", "init": ini, "events": [f"enter {mode}", *h, f"exit {end}", "getexpire 0"]}
 
 
@@ -219,8 +219,11 @@ def run_prop(chk: Check, prop: str) -> int:
                 "outermost `Cache.transaction(mode)` blocks in fast/locked/serializable mode, nested up to three times, every block opened "
                 "on a context object of its own (`async with cache.transaction(m):`), in decorator form (`@cache.transaction(m)`, or `@T[i]` with a shared object as the decorator) or on one "
                 "of three SHARED context objects kept for the whole case (entered again nested in themselves, nested in each other, inside "
-                "a decorator body, and re-used sequentially for later outermost blocks), ended by commit / "
-                "raised exception / explicit tx.rollback() / tx.commit(), <= 14 commands per block, time advances inside) generated from "
+                "a decorator body, and re-used sequentially for later outermost blocks), every block (inner ones too) ended by running to its end / by "
+                "a raised Exception / by a raised BaseException that is not an Exception / by the task being CANCELLED while suspended at a scripted "
+                "point inside the body (task.cancel() from the loop, CancelledError raised at the await; the exception is caught right outside the "
+                "block and the program goes on); explicit tx.rollback() / tx.commit() anywhere in a body with further commands after them; "
+                "<= 14 commands per block, time advances inside) generated from "
                 "VERIF_SEED, configs facade and facade_secret; every 8th case lets TTLs elapse inside the block (model comparison only); the object "
                 "owning the transaction may be active three or four times at once; plus the enumerated nesting shapes (nesting_rule). "
                 "A case is non-trivial iff at least one of the interesting states listed in interesting_states_cases was reached; "
@@ -229,12 +232,13 @@ def run_prop(chk: Check, prop: str) -> int:
         "corpus_cases": ncorpus,
         "nesting_cases": nnest,
         "nesting_rule": "every nesting shape of depth <= 3 over {own object, decorator form, shared object @0, shared object @1, decorator form with @0 as the decorator} (155 shapes) x "
-                        "every block left normally / by a caught exception, a write after every block boundary, followed by a second "
+                        "every block left normally / by a caught exception (an Exception, a BaseException that is not one, or a cancellation - quick tier: kind drawn per block; "
+                        "thorough tier: each kind), a write after every block boundary, followed by a second "
                         "outermost block re-using the first block's object entered twice; quick tier: one mode per shape drawn from "
                         "VERIF_SEED, thorough tier: all three modes (exhaustive over this space)",
         "exhaustive": bool(nexh),
         "exhaustive_cases": nexh,
-        "exhaustive_rule": "thorough tier: 4 initial shapes of one key x all histories of <= 2 commands from an 11-command alphabet x 3 modes x {commit, exception}",
+        "exhaustive_rule": "thorough tier: 4 initial shapes of one key x all histories of <= 2 commands from an 11-command alphabet x 3 modes x {commit, Exception, BaseException, cancellation}",
         "event_histogram": hist,
         "interesting_states_cases": interesting,
         "transaction_segments": nseg,
@@ -243,7 +247,9 @@ def run_prop(chk: Check, prop: str) -> int:
                        "impl = model, direct view impl = model; on segments satisfying NoDeadlineCrossed additionally the property "
                        "additionally the property itself on the implementation's answers (and on the model's); "
                        "segments are syntactic (outermost enter .. matching exit), so a transaction ended early by an inner exit is a "
-                       "violation of C03 (writes visible before the block ends / not rolled back)",
+                       "violation of C03 (writes visible before the block ends / not rolled back); an outermost exit other than `ok` - Exception, "
+                       "BaseException, cancellation - is judged as a rollback (store = store before the segment, no lock key left), and the "
+                       "exception that comes out of the block must be the one that went in (a swallowed or replaced one is reported)",
         "trusted_base": TRUSTED,
         "partial": "one task and one Memory backend; a context object shared between tasks is not exercised; non-dyadic TTLs, more than 3 keys, blocks longer than 14 commands, the overlay's "
                    "own capacity of 1000 entries, delete_match/scan/get_match inside a transaction (C13) are not exercised",
